@@ -5,4 +5,4 @@ From AwkBuilder Require Import LBuilder.
 Extraction Language OCaml.
 Extraction "c14lbmodel.ml" Z.add Z.mul Z.sub Z.div Z.modulo Z.eqb Z.ltb Z.leb Z.of_nat Z.to_nat Z.opp
   to_list value_eqb valid_b clen type_of has_typeb
-  lb_run lb_item lb_encode enc conf constructible form_ty first_ok.
+  lb_run lb_item lb_encode enc conf constructible unambiguous form_ty first_ok.
